@@ -4,6 +4,7 @@
 # and /verif/evidence are never touched and several seeds run at once.
 # usage: seedsweep.sh [name-prefix] ; output: one line per seed: DETECTED / MISSED / STALE-PATCH
 cd /verif
+export GOFLAGS=-mod=mod GOPROXY=off GOSUMDB=off GOTOOLCHAIN=local
 only="${1:-}"; par="${SWEEP_PAR:-4}"
 one() {
   d=$1; name=$(basename $d)
@@ -17,7 +18,8 @@ print(' '.join(seen[:2]))")
   wt=/tmp/sweep.$name; out=/tmp/sweepout.$name
   rm -rf $out; git -C /repo worktree remove --force $wt >/dev/null 2>&1
   git -C /repo worktree add --detach $wt HEAD >/dev/null 2>&1 || { echo "$name ERROR worktree"; return; }
-  if ! git -C $wt apply /verif/$d/patch.diff 2>/dev/null; then echo "$name STALE-PATCH (does not apply to the current tree)"; git -C /repo worktree remove --force $wt; return; fi
+  # exact apply first; else the same hunks with fuzzy context (later fix commits moved neighbouring lines)
+  if ! git -C $wt apply /verif/$d/patch.diff 2>/dev/null && ! (cd $wt && patch -p1 -F3 -s --no-backup-if-mismatch < /verif/$d/patch.diff >/dev/null 2>&1 && go build ./... 2>/dev/null); then echo "$name STALE-PATCH (does not apply to the current tree)"; git -C /repo worktree remove --force $wt; return; fi
   res=MISSED
   for c in $checks; do
     if VERIF_REPO=$wt VERIF_OUT=$out VERIF_WORKERS=4 ./verif $c quick 2>&1 | grep -q '^VIOLATION'; then res="DETECTED by $c"; break; fi
